@@ -192,7 +192,7 @@ pub struct Out {
 }
 
 fn run_shape<const B: u32>(t: &Tree, sp: &[(u32, u64)], timeout_ms: u64, out: &mut Out) {
-    engine::init(Kind::Portfolio, timeout_ms, Limits { max_decisions: 256, max_paths: 512, max_ops: 10_000_000 }, HashMode::Uniform, IoCfg::default());
+    engine::init(if B == 64 { Kind::Portfolio } else { Kind::Z3 }, timeout_ms, Limits { max_decisions: 256, max_paths: 512, max_ops: 10_000_000 }, HashMode::Uniform, IoCfg::default());
     with(|c| {
         c.width = B as u8;
         c.job_deadline = Some(std::time::Instant::now() + std::time::Duration::from_secs(20));
@@ -250,6 +250,57 @@ pub fn depth2() -> Vec<Tree> {
     out
 }
 
+fn pow(v: isize, n: u32) -> Tree {
+    let mut t = Tree::Var(v);
+    for _ in 1..n {
+        t = Tree::Mul(Box::new(t), Box::new(Tree::Var(v)));
+    }
+    t
+}
+
+/// Polynomials with repeated variables (the x*x = x (mod 2) family of `normalize`):
+/// sums of monomials x^i * y^j, with and without symbolic coefficients.
+pub fn poly_shapes() -> Vec<Tree> {
+    let monos: Vec<Tree> = vec![
+        pow(0, 1),
+        pow(0, 2),
+        pow(0, 3),
+        Tree::Mul(Box::new(pow(0, 1)), Box::new(pow(1, 1))),
+        Tree::Mul(Box::new(pow(0, 2)), Box::new(pow(1, 1))),
+        Tree::Mul(Box::new(pow(0, 1)), Box::new(pow(1, 2))),
+        Tree::Mul(Box::new(pow(0, 3)), Box::new(pow(1, 1))),
+        pow(1, 1),
+        pow(1, 2),
+    ];
+    let mut out = Vec::new();
+    let n = monos.len();
+    // all sums of 2 and 3 monomials, plain and with a symbolic coefficient on each
+    for a in 0..n {
+        for b in (a + 1)..n {
+            let plain = Tree::Add(Box::new(monos[a].clone()), Box::new(monos[b].clone()));
+            out.push(plain.clone());
+            let coef = Tree::Add(
+                Box::new(Tree::Mul(Box::new(Tree::Val(0)), Box::new(monos[a].clone()))),
+                Box::new(Tree::Mul(Box::new(Tree::Val(1)), Box::new(monos[b].clone()))),
+            );
+            out.push(coef);
+            for c in (b + 1)..n {
+                out.push(Tree::Add(Box::new(plain.clone()), Box::new(monos[c].clone())));
+                if (a + b + c) % 3 == 0 {
+                    out.push(Tree::Add(
+                        Box::new(Tree::Add(
+                            Box::new(Tree::Mul(Box::new(Tree::Val(0)), Box::new(monos[a].clone()))),
+                            Box::new(Tree::Mul(Box::new(Tree::Val(1)), Box::new(monos[b].clone()))),
+                        )),
+                        Box::new(Tree::Mul(Box::new(Tree::Val(2)), Box::new(monos[c].clone()))),
+                    ));
+                }
+            }
+        }
+    }
+    out
+}
+
 pub fn random_tree(r: &mut crate::corpus::Rng, depth: u32, k: &mut u32) -> Tree {
     if depth == 0 || r.below(5) == 0 {
         let c = r.below(5);
@@ -273,7 +324,24 @@ pub fn run(seed: u64, thorough: bool) -> (Out, Value) {
     let mut out = Out::default();
     let t0 = std::time::Instant::now();
     let budget = std::time::Duration::from_secs(if thorough { 2400 } else { 160 });
-    let mut shapes: Vec<Tree> = depth2();
+    let mut shapes: Vec<Tree> = Vec::new();
+    // interleave the exhaustive depth-2 trees with the polynomial family
+    let d2 = depth2();
+    let po = poly_shapes();
+    let npoly = po.len();
+    let mut i2 = d2.into_iter();
+    let mut ip = po.into_iter();
+    loop {
+        let a = i2.next();
+        let b = ip.next();
+        let b2 = ip.next();
+        if a.is_none() && b.is_none() {
+            break;
+        }
+        shapes.extend(a);
+        shapes.extend(b);
+        shapes.extend(b2);
+    }
     let mut r = crate::corpus::Rng::new(seed ^ 0xC15);
     let n3 = if thorough { 3000 } else { 250 };
     for _ in 0..n3 {
@@ -288,26 +356,26 @@ pub fn run(seed: u64, thorough: bool) -> (Out, Value) {
             break;
         }
         // width 8: everything symbolic, decided by bit-blasting
-        run_shape::<8>(t, &[], 10_000, &mut out);
+        run_shape::<8>(t, &[], 5_000, &mut out);
         // the half-modulus special case of normalize, forced on the first coefficient
         if i % 3 == 0 {
-            run_shape::<8>(t, &[(0, half8)], 10_000, &mut out);
+            run_shape::<8>(t, &[(0, half8)], 5_000, &mut out);
         }
         // wider widths: same shapes, short solver cap; undecided obligations are reported, not claimed
         if i % 4 == 1 {
-            run_shape::<16>(t, &[], 4_000, &mut out);
+            run_shape::<16>(t, &[], 2_000, &mut out);
         }
-        if i % 8 == 3 {
-            run_shape::<64>(t, &[], 3_000, &mut out);
-            run_shape::<64>(t, &[(0, 1u64 << 63)], 3_000, &mut out);
+        if i % 16 == 3 {
+            run_shape::<64>(t, &[], 1_500, &mut out);
+            run_shape::<64>(t, &[(0, 1u64 << 63)], 1_500, &mut out);
         }
         if out.samples.len() < 4 && i % 37 == 5 {
             out.samples.push(json!({"shape": t.show(), "note": "c_k = symbolic coefficient of a val leaf, x_i = symbolic variable value"}));
         }
     }
     let desc = json!({
-        "shapes": format!("all {} constructor trees of depth <= 2 over val/var leaves plus {} random trees of depth 3 (seed {}); {} skipped by the time box", depth2().len(), n3, seed, out.skipped),
-        "widths": "8 (every shape, all coefficients and variable values symbolic, plus the first coefficient forced to 2^(W-1) on every third shape); 16 on every fourth shape; 64 on every eighth shape",
+        "shapes": format!("all {} constructor trees of depth <= 2 over val/var leaves, {} polynomial shapes with repeated variables (sums of 2-3 monomials x^i*y^j, plain and with symbolic coefficients), plus {} random trees of depth 3 (seed {}); {} skipped by the time box", depth2().len(), npoly, n3, seed, out.skipped),
+        "widths": "8 (every shape, all coefficients and variable values symbolic, plus the first coefficient forced to 2^(W-1) on every third shape); 16 on every fourth shape; 64 on every sixteenth shape",
         "variables": 3,
     });
     (out, desc)
